@@ -338,7 +338,7 @@ func (c *Ctx) globalAliasWrites(f *ssa.Function) []globalWrite {
 						c.imm().solve()
 						if sum.Writes {
 							out = append(out, globalWrite{g, in, "passed to " + c.P.FuncID(callee) + ", which writes through that argument"})
-						} else if (sum.RetAlias || len(sum.Flows) > 0) && isContainer(a.Type()) {
+						} else if (sum.RetAlias && returnsContainer(callee) || len(sum.Flows) > 0) && isContainer(a.Type()) {
 							// the callee keeps the reference in what it returns / fills: the shared data becomes part of
 							// a value that is later modified in place (merged, normalised, resolved)
 							out = append(out, globalWrite{g, in, "handed to " + c.P.FuncID(callee) + ", which keeps a reference to it in its result"})
@@ -357,6 +357,19 @@ func isContainer(t types.Type) bool {
 	switch t.Underlying().(type) {
 	case *types.Map, *types.Slice:
 		return true
+	}
+	return false
+}
+
+// returnsContainer: some result of the function is a map, slice or pointer (something that can share the storage of
+// an argument; a func value or a scalar picked out of a table cannot).
+func returnsContainer(f *ssa.Function) bool {
+	res := f.Signature.Results()
+	for i := 0; i < res.Len(); i++ {
+		switch res.At(i).Type().Underlying().(type) {
+		case *types.Map, *types.Slice, *types.Pointer, *types.Interface:
+			return true
+		}
 	}
 	return false
 }
